@@ -257,34 +257,31 @@ def c06c(chk):
     f = chk.fn(SP + "normalize")
     if f is not None:
         sums = an.calls(f, SP + "sum")
-        fe = an.calls(f, N.FOR_EACH)
+        upd = an.each_element_update(prog, f)
         ok = False
-        why = "sum()/for_each not recognised"
-        if len(sums) == 1 and len(fe) == 1 and f.dominates(sums[0][0], fe[0][0]):
+        why = "sum() / per-element update not recognised (accepted idioms: iter_mut().for_each(|x| ..), `for x in ..iter_mut()`)"
+        if len(sums) == 1 and upd is not None and upd["kind"] in ("for_each", "loop") and f.dominates(sums[0][0], upd["bb"]):
             sd = an.call_dest_local(sums[0][1])
-            # closure captures &sum
-            cl_l = op_local(fe[0][1]["args"][1])
-            cd = f.single_def(cl_l) if cl_l is not None else None
-            cap_ok = False
-            cl = None
-            if cd and cd[0] == "assign" and cd[3]["k"] == "aggregate" and cd[3]["akind"] == "closure":
-                cl = prog.fn(cd[3]["closure"])
-                caps = [f.resolve_ptr(op_local(o)) for o in cd[3]["ops"] if op_local(o) is not None]
-                cap_ok = caps == [(sd, ())]
-            # receiver: iter_mut of whole self.array
-            sl, info = f.slice_locals(fe[0][1]["args"][0])
-            adapt = [(x[1]["callee"].get("path") or "").split("::")[-1] for x in info["calls"]]
-            whole = adapt == ["iter_mut"] and (SPECTRUM, "array") in info["fields"]
+            adapt = [a_ for a_ in upd["adaptors"] if a_ not in ("into_iter", "sum")]
+            whole = adapt == ["iter_mut"] and (SPECTRUM, "array") in upd["fields"]
+            g = upd["store_fn"]
+            st = upd["store"]
             div_ok = False
-            if cl is not None:
-                for b, i, p, rv, s in cl.assigns():
-                    if p == (2, (("deref",),)) and rv["k"] == "binop" and rv["op"] == "Div" and op_place(rv["l"]) == p:
-                        r = op_local(rv["r"])
-                        sl2, info2 = cl.slice_locals(rv["r"], through_calls=False)
-                        div_ok = 1 in sl2 and not info2["binops"]
-            uncond = not list(f.switches()) and f.postdominates(fe[0][0], 0)
-            ok = cap_ok and whole and div_ok and uncond
-            why = "captures the sum taken before the loop=%s, iterates every element=%s, element = element / sum=%s, unconditional (no early return / branch around the division)=%s" % (cap_ok, whole, div_ok, uncond)
+            cap_ok = False
+            if st is not None and st["k"] == "binop" and st["op"] == "Div" and g is not None:
+                lp = op_place(st["l"])
+                elem = (2, (("deref",),)) if upd["kind"] == "for_each" else (upd.get("payload"), (("deref",),))
+                same_elem = lp == elem
+                sl2, info2 = g.slice_locals(st["r"], through_calls=False)
+                if upd["kind"] == "for_each":
+                    caps = an.closure_captures(f, g.path) or []
+                    cap_ok = [c for c in caps if c is not None] == [(sd, ())]
+                    div_ok = same_elem and 1 in sl2 and not info2["binops"]
+                else:
+                    cap_ok = sd in sl2 or (op_local(st["r"]) is not None and f.copy_root(op_local(st["r"])) == sd)
+                    div_ok = same_elem and not info2["binops"]
+            ok = cap_ok and whole and div_ok and upd["unconditional"]
+            why = "divisor is the sum taken before the loop=%s, iterates every element=%s, element = element / sum=%s, unconditional (no early return / branch around the division)=%s [%s idiom]" % (cap_ok, whole, div_ok, upd["unconditional"], upd["kind"])
         chk.ob("C06.c", "normalize/divides-every-element-by-prior-sum", ok, f.loc(), why)
     s = chk.fn(SP + "sum")
     if s is not None:
